@@ -14,7 +14,7 @@ from sim import shapes, pool as simpool, disk as simdisk
 from sim.core import Rng, SimCrash, close, h64
 
 PROPS = ["C15"]
-BUDGET = {"C15": {"quick": {"runs": 3000, "wall_cap_s": 110}, "thorough": {"runs": 50000, "wall_cap_s": 1500}}}
+BUDGET = {"C15": {"quick": {"runs": 6000, "wall_cap_s": 150}, "thorough": {"runs": 80000, "wall_cap_s": 1800}}}
 RULE = {"C15": "one case = one seeded history (3-20 steps) over 1-3 surfaces and a container: sample sizes 2-12 (thorough up to 40), vertex "
                "spacings dividing n-1, forced / cached tessellation, edits, container tessellation on 1-4 simulated workers, quad "
                "tessellation, OBJ/OFF/STL export to strings and to a simulated disk with faults, polygonal and spline trims; "
@@ -589,6 +589,10 @@ def _check_container(ctx, cont, members, world, what, sig, fresh_sample=None):
     # split by element: the container list is the concatenation of the element meshes in order; every element mesh
     # starts with its (0, 0) corner vertex (the statement excludes trims touching the boundary)
     starts = [kk for kk, (vid, uv, data) in enumerate(V) if abs(uv[0]) < 1e-12 and abs(uv[1]) < 1e-12]
+    if (len(starts) != len(members) or (starts and starts[0] != 0)) and any(world[m].trim for m in members):
+        # a coarse trimmed element mesh may lose its corner vertex or be empty altogether: the split cannot be judged
+        ctx.probe("container_partition_not_judged_trimmed")
+        return
     if len(starts) != len(members) or (starts and starts[0] != 0):
         ctx.fail("mesh_invalid", "%s: the container mesh does not consist of %d element meshes (corner vertices found at %r)" % (what, len(members), starts[:6]),
                  check="container_concat", **sig)
